@@ -365,7 +365,9 @@ func main() {
 	p.listSite("auth_prefer_unencrypted", "Client.authTypeAutoDiscover", "SMTPAuthType", 1)
 	p.listSite("eml_common_headers", "parseEMLHeaders", "Header", 0)
 
-	extra(p, sp)
+	for _, f := range extras {
+		f(p, sp)
+	}
 
 	sort.Strings(untranslatable)
 	emit("\n(* ---- status ---- *)\nDefinition untranslatable_count : N := %d.\n", len(untranslatable))
